@@ -199,9 +199,11 @@ def run(ctx):
 
 TRUSTED = [
     'Coq 8.16.1 kernel + vm_compute, primitive floats / Uint63 (IEEE-754 binary64 of the host)',
-    'FloatAxioms specification axioms (leb_spec, eqb_spec, Prim2SF/SF2Prim, Leibniz.eqb_spec) in C02_stop_test / C10_time',
-    'Reals axioms (ClassicalDedekindReals.sig_forall_dec, sig_not_dec, functional_extensionality_dep) in the exact-arithmetic '
-    'theorems C02_residual_R / C11_contraction',
+    'FloatAxioms specification axioms: leb_spec, eqb_spec (C02_stop_test: an error <= tolerance is not NaN) and '
+    'Leibniz.eqb_spec (C10_time_half_exact_5000); Print Assumptions also lists the kernel primitives (PrimFloat.add, leb, sqrt, '
+    'PrimInt63.*, ...) that vm_compute executes',
+    'Reals axioms (ClassicalDedekindReals.sig_forall_dec, FunctionalExtensionality.functional_extensionality_dep) in the '
+    'exact-arithmetic theorems C02_residual_R / C11_contraction only',
     'hand-written model coq/Solve/{Init,Step,Run,Orig,Validate}.v, tied to the code by the correspondence on every run',
     "Python's parser (ast.parse), eval of exogenous / initial-condition strings, float() and float.hex as used by harness/solve_common.py",
 ]
